@@ -363,12 +363,21 @@ func (p *Path) caseReady(self *Thread, c selCase) bool {
 		if c.ch.closed || len(c.ch.buf) < c.ch.cap {
 			return true
 		}
+		// a rendezvous exists only on unbuffered channels: on a full buffered
+		// channel a pending receiver is merely not scheduled yet (it will take
+		// the head of the buffer), the send has to wait for the free slot
+		if c.ch.cap != 0 {
+			return false
+		}
 		t, _ := p.partner(self, c.ch, false)
 		return t != nil
 	}
 	p.timerPoll(c.ch)
 	if len(c.ch.buf) > 0 || c.ch.closed {
 		return true
+	}
+	if c.ch.cap != 0 {
+		return false
 	}
 	t, _ := p.partner(self, c.ch, true)
 	return t != nil
@@ -377,7 +386,11 @@ func (p *Path) caseReady(self *Thread, c selCase) bool {
 // selectOp performs a (possibly single-case) select.
 func (th *Thread) selectOp(cases []selCase, hasDefault bool, desc string) selResult {
 	p := th.p
-	th.pending = cases
+	// only an operation that can block is a rendezvous partner for others: a
+	// select with a default case never waits
+	if !hasDefault {
+		th.pending = cases
+	}
 	th.completed = nil
 	anyReady := func() bool {
 		for _, c := range cases {
